@@ -317,7 +317,11 @@ def canon_trace(comp, log):
 
 
 def coq_sets(cols):
-    return L([L(['(%d,%d,%d)' % t for t in c]) for c in cols])
+    for c in cols:
+        for (r, p, st) in c:
+            if p >= 64 or st >= 64:
+                raise ValueError('item outside the packed range')
+    return '(' + L([L(['%d' % ((r * 64 + p) * 64 + st) for (r, p, st) in c]) for c in cols]) + ')%N'
 
 
 def expected_observation(lexer, status, ncols, toks, bad_at):
@@ -443,12 +447,13 @@ def check_grammar(ctx, rng, gtext, stream, cases, meta, seen_terms, n_exh, n_ext
     alphabet = sorted(c for c, t in comp0.char_tid.items() if t is not None) or ['x']
     inputs = gen_inputs(rng, comp0, alphabet, n_exh, n_extra)
     crules = comp0.coq_rules()
+    group_terms, group_meta, group_seen = [], [], set()
     for text, why in inputs:
         toks, bad_at = [], None
         for k, ch in enumerate(text):
             t = comp0.char_tid.get(ch)
             if t is None:
-                t = 99
+                t = 9
                 if bad_at is None:
                     bad_at = k
             toks.append(t)
@@ -490,19 +495,53 @@ def check_grammar(ctx, rng, gtext, stream, cases, meta, seen_terms, n_exh, n_ext
                 ctx.violation('correspondence:error-position',
                               {'no_longer_checks': 'error position = index of the token the scanner rejected', **w},
                               False, 'error position %s, the scanner rejected token %d' % (pos, code - 2))
-            term = '(%s, %d, %s, %d, %d, %s, %s)' % (crules, comp.start, L(['%d' % t for t in toks]), code, drop,
-                                                     coq_sets(tr[0]), coq_sets(tr[1]))
-            if term not in seen_terms:
-                seen_terms.add(term)
-                cases['earley'].append(term)
-                meta['earley'].append(w)
+            term = '(%s, %d, %d, %s, %s)' % (L(['%d' % t for t in toks]), code, drop, coq_sets(tr[0]), coq_sets(tr[1]))
+            if term not in group_seen:
+                group_seen.add(term)
+                group_terms.append(term)
+                group_meta.append(w)
+    if group_terms:
+        gkey = (crules, comp0.start, tuple(group_terms))
+        if gkey not in seen_terms:
+            seen_terms.add(gkey)
+            cases['earley'].append((crules, comp0.start, group_terms))
+            meta['earley'].append(group_meta)
     ctx.sample({'grammar': gtext, 'compiled_rules': len(comp0.rules), 'inputs': len(inputs),
                 'example_input': inputs[min(3, len(inputs) - 1)][0]})
 
 
+def group_term(g):
+    return '(%s, %d, %s)' % (g[0], g[1], L(g[2]))
+
+
 def run_coq(ctx, cases, meta):
-    for kind, fn, chunk, what in (('earley', 'earley_check', 250, 'Earley/Alg.earley_parse vs earley.Parser (item sets per column, outcome)'),
-                                  ('pred', 'predictions_check', 400, 'Cfg/Analysis.expand_rule vs Parser.predictions'),
+    what = 'Earley/Alg.earley_parse vs earley.Parser (item sets per column, outcome)'
+    groups = cases['earley']
+    if groups:
+        # pack groups into chunks of roughly equal text size
+        bad, errs = ctx.coq_bad_indices('c01earley', IMPORTS, 'earley_check', [group_term(g) for g in groups], chunk=12)
+        for e in errs:
+            ctx.violation('correspondence:coq-eval', {'no_longer_checks': what, 'error': e}, False, e[:300])
+        # a failing group: find the runs inside it
+        single, smeta = [], []
+        for i in bad[:20]:
+            g = groups[i]
+            for t, w in zip(g[2], meta['earley'][i]):
+                single.append(group_term((g[0], g[1], [t])))
+                smeta.append(w)
+        if single:
+            bad2, errs2 = ctx.coq_bad_indices('c01earley1', IMPORTS, 'earley_check', single, chunk=40)
+            for e in errs2:
+                ctx.violation('correspondence:coq-eval', {'no_longer_checks': what, 'error': e}, False, e[:300])
+            for i in bad2:
+                w = dict(smeta[i])
+                w['no_longer_checks'] = what
+                ctx.violation('correspondence:' + what, w, False,
+                              'model and implementation differ (item sets / outcome) on grammar %r input %r lexer %s; '
+                              'acceptance agrees with the derivability oracle' % (w.get('grammar'), w.get('text'), w.get('lexer')))
+        ctx.extra['earley_runs_checked_in_coq'] = sum(len(g[2]) for g in groups)
+        ctx.coq_cases_checked += sum(len(g[2]) for g in groups) - len(groups)
+    for kind, fn, chunk, what in (('pred', 'predictions_check', 400, 'Cfg/Analysis.expand_rule vs Parser.predictions'),
                                   ('null', 'nullable_check', 400, 'Cfg/Analysis.nullable_set vs Parser.NULLABLE')):
         if not cases[kind]:
             continue
@@ -513,8 +552,7 @@ def run_coq(ctx, cases, meta):
             w = dict(meta[kind][i])
             w['no_longer_checks'] = what
             ctx.violation('correspondence:' + what, w, False,
-                          'model and implementation differ (%s) on grammar %r input %r lexer %s; acceptance agrees with '
-                          'the derivability oracle' % (kind, w.get('grammar'), w.get('text'), w.get('lexer')))
+                          'model and implementation differ (%s) on grammar %r' % (kind, w.get('grammar')))
 
 
 EXOTIC = [
